@@ -53,3 +53,70 @@ def run(ctx: Ctx):
     finally:
         I.class_invs.clear()
         I.class_invs.update(saved)
+        I.extra_model_classes = ()
+
+
+def run_final_construct(ctx: Ctx):
+    """C10 for ANY number of exposed ports: create_final_construct_fn against specs.wiring_unbounded.
+    The port lists are symbolic sequences of CppPortItf values (frozen dataclass -> z3 datatype; the C++ type, accessor
+    function and member variable stay abstract: the function under contract does not look at them)."""
+    I = ctx.interp
+    ghostlib.install(I)
+    I.model_strings_break_free = True
+    I.extra_model_classes = ('dznpy.adv_shell.common.CppPortItf', 'dznpy.adv_shell.common.DznPortItf',
+                             'dznpy.adv_shell.common.MultiClientPortCfgFixture')
+    for q in ('dznpy.cpp_gen.TypeDesc', 'dznpy.cpp_gen.Function', 'dznpy.cpp_gen.MemberVariable'):
+        I.sorts.opaque_classes.add(q)
+    pr = I.load_module(PR)
+    cm = I.load_module('dznpy.adv_shell.common')
+    cg = I.load_module('dznpy.cpp_gen')
+    spec = I.load_module('specs.wiring_unbounded')
+    CppPortItf, CppPorts, CppEncapsulee = (cm.globals[n] for n in ('CppPortItf', 'CppPorts', 'CppEncapsulee'))
+
+    def inv_target(interp, path, v):
+        # the accessor target is a C++ expression: a single line that is not a comment
+        a = interp.sorts.accessor(v.cls, 'accessor_target')(v.expr)
+        interp.break_free_syms.add(a.get_id())
+        return z3.Not(z3.PrefixOf(z3.StringVal('/'), a))
+    saved = dict(I.class_invs)
+    I.class_invs['dznpy.adv_shell.common.CppPortItf'] = [inv_target]
+
+    def mk(p):
+        lists = []
+        for nm in ('pp', 'rp'):
+            ports = symobj.fresh_value(I, p, TypeDesc('list', TypeDesc('cls', CppPortItf)), f'in_{nm}')
+            lists.append(ObjV(CppPorts, {'ports': ports}))
+        enc = symobj.fresh_value(I, p, TypeDesc('cls', CppEncapsulee), 'in_enc')
+        z = ops.to_zstr(enc.fields['member_var'].fields['name'])
+        I.break_free_syms.add(z.get_id())
+        p.assume(ops.with_facts(ops.is_ident(z)))
+        p.assume(z3.Not(z3.PrefixOf(z3.StringVal('/'), z)))      # an identifier does not start a comment
+        zs = z3.String('in_shell')
+        I.break_free_syms.add(zs.get_id())
+        p.assume(ops.with_facts(ops.is_ident(zs)))
+        scope = I.call(cg.globals['Struct'], [], {'name': ops.mkstr([zs])}, p)
+        return [scope] + lists + [enc], lists + [enc]
+
+    f = I.get_function(f'{PR}.create_final_construct_fn')
+    view = spec.globals['statements']
+
+    def impl(i, p, a, k):
+        fnc = i.call_function(f, a, k, p)
+        return i.call_function(view, [i.getattr_(i.getattr_(fnc, 'contents', p), 'lines', p)], {}, p)
+
+    def spc(i, p, a, k):
+        return i.call_function(spec.globals['final_construct_statements'], a[1:], k, p)
+
+    def mk2(p):
+        a, b = mk(p)
+        return a, a
+    try:
+        ctx.functions[f'{PR}.create_final_construct_fn'] = 'proved (unbounded: any number of provides / requires ports)'
+        refines(ctx, 'processing.create_final_construct_fn', f'{PR}.create_final_construct_fn', impl, spc, mk2,
+                witness=None,
+                text='FinalConstruct(): FinalConstruct() of every multi-client port, check_bindings() of every other '
+                     'exposed port through its accessor target, parent + check_bindings() of the wrapped component')
+    finally:
+        I.class_invs.clear()
+        I.class_invs.update(saved)
+        I.extra_model_classes = ()
